@@ -18,6 +18,8 @@
 #include <yaclib/coro/shared_future.hpp>
 #include <yaclib/coro/task.hpp>
 #include <yaclib/coro/yield.hpp>
+#include <yaclib/lazy/make.hpp>
+#include <yaclib/lazy/schedule.hpp>
 
 #include <yaclib_std/chrono>
 
@@ -614,30 +616,88 @@ void CoroCase(Ctx& ctx, int coro_kind, bool stopped_target) {
             "%d resumptions counted after co_await expressions, expected %ld", w.obs.resumed.load(kRlx), want_resumed);
 }
 
-// lazy heads awaited from a coroutine: co_await std::move(task), co_await Await(task)
+// lazy heads awaited from a coroutine: co_await std::move(task), co_await Await(task), for every kind of head
+// (function step, contract step, ready value, coroutine), with and without a further lazy step
 void AwaitTaskCase(Ctx& ctx) {
   ResetTags();
-  int head = static_cast<int>(ctx.rng.Below(2));  // 0 coroutine task, 1 MakeTask-like ready task
+  int head = static_cast<int>(ctx.rng.Below(6));  // 0 coroutine, 1 Schedule(e,f), 2 Schedule(f), 3 LazyContract, 4 MakeTask, 5 LazyContract(e)
   int form = static_cast<int>(ctx.rng.Below(2));  // 0 co_await std::move(task), 1 Await(task)
+  bool extra = ctx.rng.Coin();                    // .ThenInline(h) after the head
+  bool head_fails = ctx.rng.Below(4) == 0;
   int code = static_cast<int>(ctx.rng.In(1, 1000));
-  ctx.Note("await a lazy Task from a coroutine: head=%s form=%s", head == 0 ? "coroutine" : "coroutine+Then",
-           form == 0 ? "co_await task" : "Await(task)");
+  static const char* const kHead[] = {"coroutine", "Schedule(e,f)", "Schedule(f)", "LazyContract(f)", "MakeTask", "LazyContract(e,f)"};
+  ctx.Note("await a lazy Task from a coroutine: head=%s%s form=%s%s", kHead[head], extra ? "+ThenInline" : "",
+           form == 0 ? "co_await task" : "Await(task)", head_fails ? " (head fails)" : "");
   auto pool = yaclib::MakeFairThreadPool(1);
+  auto pool2 = yaclib::MakeFairThreadPool(1);
+  TagExec e2{2, *pool2};
   std::atomic<int> started{0};
+  std::atomic<int> extra_ran{0};
   std::atomic<int> bad{0};
+  std::atomic<int> head_tag{-1};
   auto inner = [&](int c) -> yaclib::Task<Tracked, MyError> {
     started.fetch_add(1, kRlx);
+    if (head_fails) {
+      co_return MyError{c};
+    }
     co_return Tracked{c};
   };
+  auto make = [&]() -> yaclib::Task<Tracked, MyError> {
+    auto fn = [&started, &head_tag, head_fails, code]() -> R {
+      started.fetch_add(1, kRlx);
+      head_tag.store(CurTag(), kRlx);
+      if (head_fails) {
+        return MyError{code};
+      }
+      return Tracked{code};
+    };
+    auto pfn = [&started, &head_tag, head_fails, code](yaclib::Promise<Tracked, MyError>&& p) {
+      started.fetch_add(1, kRlx);
+      head_tag.store(CurTag(), kRlx);
+      if (head_fails) {
+        std::move(p).Set(MyError{code});
+      } else {
+        std::move(p).Set(Tracked{code});
+      }
+    };
+    switch (head) {
+      case 0:
+        return inner(code);
+      case 1:
+        return yaclib::Schedule<MyError>(e2, fn);
+      case 2:
+        return yaclib::Schedule<MyError>(fn);
+      case 3:
+        return yaclib::LazyContract<Tracked, MyError>(pfn);
+      case 4:
+        started.fetch_add(1, kRlx);
+        if (head_fails) {
+          return yaclib::MakeTask<Tracked, MyError>(MyError{code});
+        }
+        return yaclib::MakeTask<Tracked, MyError>(Tracked{code});
+      default:
+        return yaclib::LazyContract<Tracked, MyError>(e2, pfn);
+    }
+  };
+  int want_value = extra ? code + 1 : code;
   auto outer = [&]() -> yaclib::Future<Tracked, MyError> {
     co_await yaclib::On(*pool);
-    auto t = inner(code);
-    if (started.load(kRlx) != 0) {
+    auto t0 = make();
+    if (head != 4 && started.load(kRlx) != 0) {
       bad.fetch_add(1, kRlx);  // ran before being awaited
     }
+    yaclib::Task<Tracked, MyError> t;
+    if (extra) {
+      t = std::move(t0).ThenInline([&extra_ran](Tracked v) {
+        extra_ran.fetch_add(1, kRlx);
+        return Tracked{v.v + 1};
+      });
+    } else {
+      t = std::move(t0);
+    }
     if (form == 0) {
-      Tracked v = co_await std::move(t);
-      if (!v.Fresh() || v.v != code) {
+      Tracked v = co_await std::move(t);  // a failing head makes this throw: the exception becomes our Result
+      if (!v.Fresh() || v.v != want_value) {
         bad.fetch_add(1, kRlx);
       }
       co_return v;
@@ -647,20 +707,51 @@ void AwaitTaskCase(Ctx& ctx) {
       bad.fetch_add(1, kRlx);
       co_return Tracked{-1};
     }
-    co_return Tracked{std::as_const(t).Touch().Value().v};
+    const R& r = std::as_const(t).Touch();
+    if (r.State() != yaclib::ResultState::Value) {
+      co_return MyError{r.State() == yaclib::ResultState::Error ? r.Error().code : -5};
+    }
+    co_return Tracked{r.Value().v};
   };
-  (void)head;
   {
     auto f = outer();
     auto r = std::move(f).Get();
-    ctx.Check(r.State() == yaclib::ResultState::Value && std::as_const(r).Value().v == code, "coroutine-result",
-              "C13,C12", "awaiting a lazy Task produced state %d", (int)r.State());
+    if (!head_fails) {
+      ctx.Check(r.State() == yaclib::ResultState::Value && std::as_const(r).Value().v == want_value, "coroutine-result",
+                "C13,C12", "awaiting a lazy Task (head %s) produced state %d, expected value %d", kHead[head],
+                (int)r.State(), want_value);
+    } else if (form == 0) {
+      int got = -9;
+      if (r.State() == yaclib::ResultState::Exception) {
+        try {
+          std::rethrow_exception(std::as_const(r).Exception());
+        } catch (const yaclib::ResultError<MyError>& e) {
+          got = e.Get().code;
+        } catch (...) {
+        }
+      }
+      ctx.Check(got == code, "escaping-exception-result", "C13,C12",
+                "co_await of a failing lazy Task (head %s): Result state %d code %d, expected the head's error %d rethrown",
+                kHead[head], (int)r.State(), got, code);
+    } else {
+      ctx.Check(r.State() == yaclib::ResultState::Error && std::as_const(r).Error().code == code, "coroutine-result",
+                "C13,C12", "Await(task) of a failing head %s: Result state %d", kHead[head], (int)r.State());
+    }
   }
   pool->Stop();
   pool->Wait();
+  pool2->Stop();
+  pool2->Wait();
   ctx.SetNontrivial(true);
+  ctx.Observe(static_cast<u64>(head * 8 + form * 4 + (extra ? 2 : 0) + (head_fails ? 1 : 0)));
   ctx.Check(bad.load(kRlx) == 0 && started.load(kRlx) == 1, "lazy-started-by-await", "C13,C12",
-            "lazy task body ran %d times, %d inconsistencies", started.load(kRlx), bad.load(kRlx));
+            "lazy task head %s ran %d times, %d inconsistencies", kHead[head], started.load(kRlx), bad.load(kRlx));
+  ctx.Check(extra_ran.load(kRlx) == ((extra && !head_fails) ? 1 : 0), "lazy-step-once", "C12",
+            "lazy ThenInline step after the head ran %d times", extra_ran.load(kRlx));
+  if (head == 1 || head == 5) {
+    ctx.Check(head_tag.load(kRlx) == 2, "ran-on-executor", "C12,C05", "head %s ran with executor tag %d, expected 2",
+              kHead[head], head_tag.load(kRlx));
+  }
 }
 
 }  // namespace
@@ -683,7 +774,7 @@ VF_CELL(co_task_stopped, "task-coroutine/stopped-target", "C13,C03,C05", 6) {
 VF_CELL(co_shared_stopped, "shared-future-coroutine/stopped-target", "C13,C03,C05", 6) {
   CoroCase(ctx, cShared, true);
 }
-VF_CELL(co_await_task, "await-lazy-task", "C13,C12,C03", 6) {
+VF_CELL(co_await_task, "await-lazy-task", "C13,C12,C03,C05", 12) {
   AwaitTaskCase(ctx);
 }
 
